@@ -563,7 +563,7 @@ func driveClient(run *sessionRun, pipelined bool, T time.Duration, r *rand.Rand)
 				full := encodeReq(k, &sReq{maj: 1, min: 4, bc: 1, writeOk: true, items: []sItem{{op: opActivate, payload: 0}}})
 				_, _ = c.Write(full[:len(full)-5])
 				closeAtEnd = true
-			case "extra-item", "bad-type", "bad-tag", "mutated", "hostile-length":
+			case "extra-item", "bad-type", "bad-tag", "mutated", "hostile-length", "cred-type", "cut-tail":
 				_, _ = c.Write(malformedRequest(k, a.how))
 				if a.how == "hostile-length" {
 					closeAtEnd = true // the announced bytes never come: the peer leaves (otherwise a server without ReadTimeout rightly waits)
@@ -797,7 +797,7 @@ func genScript(r *rand.Rand, common sCfg, saConfigured bool, o scriptOpts) (sCfg
 			}
 			arrs = append(arrs, sArr{kind: 'R', req: q})
 		case x < 88 || (last && x < 50):
-			how := []string{"garbage", "wrongtype", "truncated-close", "extra-item", "bad-type", "bad-tag", "mutated", "hostile-length"}[r.Intn(8)]
+			how := []string{"garbage", "wrongtype", "truncated-close", "extra-item", "bad-type", "bad-tag", "mutated", "hostile-length", "cred-type", "cut-tail", "cred-type", "cut-tail"}[r.Intn(12)]
 			if o.allowStall && cfg.rt && r.Intn(3) == 0 {
 				how = "stall"
 			}
@@ -835,6 +835,38 @@ func malformedRequest(k int, how string) []byte {
 			}
 		}
 		return full[:9]
+	case "cred-type":
+		// a request with username/password credentials whose Credential Type is another number (0 = the value the header holds
+		// when there is NO Authentication at all; 2..6 = types the library has no structure for; a huge one)
+		withCred := encodeReq(k, &sReq{maj: 1, min: 4, bc: 1, cred: 1, auth: "ok:1", writeOk: true, items: []sItem{{op: opActivate, payload: 0}}})
+		b := append([]byte(nil), withCred...)
+		for _, n := range mut.All(mut.Parse(withCred)) {
+			if n.Tag == 0x420024 {
+				binary.BigEndian.PutUint32(b[n.Off+8:], []uint32{0, 2, 3, 0, 4, 5, 6, 0x7fffffff}[k%8])
+			}
+		}
+		return b
+	case "cut-tail":
+		// a perfectly nested message in which one structure ends before its trailing required item(s): the batch item without
+		// its payload, the message without batch items, the header without Batch Count, Authentication without its value
+		src := full
+		want := []uint32{0x42000f, 0x420078, 0x420077, 0x42000c}[k%4]
+		if want == 0x42000c {
+			src = encodeReq(k, &sReq{maj: 1, min: 4, bc: 1, cred: 1, auth: "ok:1", writeOk: true, items: []sItem{{op: opActivate, payload: 0}}})
+		}
+		for _, st := range mut.All(mut.Parse(src)) {
+			if st.Tag != want || len(st.Kids) < 2 {
+				continue
+			}
+			last := st.Kids[len(st.Kids)-1]
+			from, to := last.Off, st.Off+8+int(st.Len)
+			b := append(append([]byte(nil), src[:from]...), src[to:]...)
+			for p := st; p != nil; p = p.Parent {
+				setLen(b, p.Off, binary.BigEndian.Uint32(b[p.Off+4:])-uint32(to-from))
+			}
+			return b
+		}
+		return full[:len(full)-16]
 	case "extra-item":
 		b := append(append([]byte(nil), full...), extra...)
 		setLen(b, 0, uint32(len(b)-8))
